@@ -98,7 +98,7 @@ func unionSpecs(prop string, probe func(*mintops.W), quick bool) []*bfs.Spec {
 	if !quick {
 		specs = append(specs, &bfs.Spec{Prop: prop, Name: prop + "-union-fee100", Cfg: mintops.Config{Fee: 100}, Init: []string{"fund|8,4,2,1,1", "mq|8", "meltq|4"}, Menu: unionMenu, Probe: probe, Depth: d})
 		specs = append(specs, &bfs.Spec{Prop: prop, Name: prop + "-union-limits-mpp", Cfg: mintops.Config{Fee: 0, MPP: true, Limits: mint.MintLimits{MaxBalance: 40, MintingSettings: mint.MintMethodSettings{MaxAmount: 8}, MeltingSettings: mint.MeltMethodSettings{MaxAmount: 4}}},
-			Init: []string{"fund|8,4,2,1,1", "mq|8", "meltq|4"}, Menu: unionMenu, Probe: probe, Depth: 2})
+			Init: []string{"fund|8", "fund|4,2,1,1", "mq|8", "meltq|4"}, Menu: unionMenu, Probe: probe, Depth: 2})
 	}
 	return specs
 }
